@@ -372,7 +372,11 @@ class C09(Check):
             raise Violation("more-unions-than-datum", "bytes hold more union indices than the datum has unions")
         # closure under return_named_type
         back = guard("read-own-output", fastavro.schemaless_reader, io.BytesIO(blob), schema, return_named_type=True)
-        if self._hints_only_named(node, table, datum, tn) and tn:
+        if "bytearray(" in repr(datum):
+            # a bytearray comes back as bytes, which (unlike the bytearray) also conforms to fixed branches: the re-written
+            # value is a different datum, the statement only speaks about the pairs returned for named branches
+            labels.add("closure-skipped:bytearray")
+        elif self._hints_only_named(node, table, datum, tn) and tn:
             labels.add("closure")
             fo = io.BytesIO()
             guard("write-back-named-result", fastavro.schemaless_writer, fo, schema, back)
